@@ -128,19 +128,18 @@ def run (w : W) : List WOp → Res (W × List WOut)
     pure (w, o :: os)
 
 /-- The transport's contract (C06) for the writer's requests `network_write(buf, datalen, datalen)`:
-a successful completion reports the whole buffer (`min = buflen ≤ n ≤ buflen`); a failed one has
-passed on at most the buffer. -/
+only an outstanding request is completed; a successful completion reports the whole buffer
+(`min = buflen ≤ n ≤ buflen`); a failed one has passed on at most the buffer. -/
+def fits (w : W) : WOp → Prop
+  | .net ev => ∃ wb, w.curr = some wb ∧
+      (match ev with
+       | .done n => n = wb.datalen
+       | .fail p => p ≤ wb.datalen)
+  | _ => True
+
+/-- every completion in `ops` fits the request outstanding at that moment -/
 def transportOK (w : W) : List WOp → Prop
   | [] => True
-  | op :: ops =>
-    (match op with
-     | .net ev =>
-        match w.curr with
-        | some wb => (match ev with | .done n => n = wb.datalen | .fail p => p ≤ wb.datalen)
-        | none => True
-     | _ => True) ∧
-    (match step w op with
-     | .ok (w', _) => transportOK w' ops
-     | _ => True)
+  | op :: ops => fits w op ∧ ∀ w' o, step w op = .ok (w', o) → transportOK w' ops
 
 end Percival.Model.NetbufWrite
